@@ -180,7 +180,38 @@ def gen_cases(tier):
                     for seq in itertools.product(core, repeat=n):
                         cases.append({"tool": "format_converter", "target": target, "files": [list(k) for k in seq],
                                       "place": "t", "r": False, "out": "explicit-inside-input"})
+    # spellings of the search / input directory (the default is an absolute path without anything special in it)
+    for form in DIRFORMS:
+        for tool in ("odmlconvert", "odmltordf"):
+            for k in core:
+                for place in ("t", "s"):
+                    for r in ((False, True) if place == "t" else (True,)):
+                        for out in ("implicit", "explicit"):
+                            cases.append({"tool": tool, "files": [list(k)], "place": place, "r": r, "out": out, "dirform": form})
+            for a, b in itertools.product(core[:6] + core[6:7], repeat=2):
+                cases.append({"tool": tool, "files": [list(a), list(b)], "place": "ts", "r": True,
+                              "out": "implicit" if (core.index(a) + core.index(b)) % 2 else "explicit", "dirform": form})
+        for target in ("v1_1", "odml", "turtle"):
+            right = ("v10-xml", ".xml") if target == "v1_1" else ("v11-xml", ".xml")
+            for seq in ([right], [right, right], [right, ("text", ".json")]):
+                for place in (("t", "s") if len(seq) == 1 else ("ts",)):
+                    for r in ((False, True) if place == "t" else (True,)):
+                        for out in ("implicit", "explicit"):
+                            cases.append({"tool": "format_converter", "target": target, "files": [list(k) for k in seq],
+                                          "place": place, "r": r, "out": out, "dirform": form})
+    # base names that resemble the names the tools derive for their outputs (still unique base names)
+    for tool in ("odmlconvert", "odmltordf"):
+        for names in NAME_SETS:
+            for a, b in itertools.product([k for k in core if k[0] in VALID], repeat=2):
+                for place in ("tt", "ts"):
+                    cases.append({"tool": tool, "files": [list(a), list(b)], "place": place, "r": True, "out": "implicit",
+                                  "names": list(names)})
     return cases
+
+
+DIRFORMS = ["rel", "rel-dotdot", "trailing-slash", "hidden-ancestor", "name-plus-paren", "name-bracket-dollar", "name-blank"]
+DIRNAMES = {"name-plus-paren": "in+put(1)", "name-bracket-dollar": "in[1]$", "name-blank": "in put"}
+NAME_SETS = [("a", "a_conv"), ("a_conv", "a"), ("a", "a.b"), ("conv", "a_conv_conv")]
 
 
 def tree_state(root):
@@ -216,10 +247,13 @@ def _run(case, scratch):
     def fail(clause, observed=None, kind=None, ext=None):
         fails.append(report.failure("batch", {"clause": clause, "tool": tool, "target": case.get("target"), "kind": kind,
                                               "ext": ext, "n_files": len(case["files"]), "recursive": bool(case["r"]),
-                                              "out": case["out"]}, case, observed=observed,
+                                              "out": case["out"], "dirform": case.get("dirform", "abs"),
+                                              "names": "look-alike" if case.get("names") else "plain"}, case, observed=observed,
                                     explain="files %r placement %s" % (case["files"], case["place"])))
-    root = os.path.join(scratch, "root")
-    indir = os.path.join(root, "input")
+    form = case.get("dirform", "abs")
+    root = os.path.join(scratch, ".hidden", "root") if form == "hidden-ancestor" else os.path.join(scratch, "root")
+    in_name = DIRNAMES.get(form, "input")
+    indir = os.path.join(root, in_name)
     work = os.path.join(root, "work")
     outx = os.path.join(root, "explicit_out")
     inside = case["out"] == "explicit-inside-input"
@@ -232,13 +266,23 @@ def _run(case, scratch):
         fh.write("do not touch\n")
     files = []
     for i, ((kind, ext), pl) in enumerate(zip(case["files"], case["place"])):
-        base = "f%d" % (i + 1)
+        base = case["names"][i] if case.get("names") else "f%d" % (i + 1)
         rel = os.path.join("sub" if pl == "s" else "", base + ext)
         with open(os.path.join(indir, rel), "w", encoding="utf-8") as fh:
             fh.write(content_of(kind, ext, base))
         files.append({"kind": kind, "ext": ext, "base": base, "rel": rel, "seen": pl == "t" or bool(case["r"])})
     before = tree_state(root)
+    cwd_rel = "work"
     os.chdir(work)
+    indir_abs = indir
+    if form == "rel":
+        os.chdir(root)
+        cwd_rel = ""
+        indir = in_name
+    elif form == "rel-dotdot":
+        indir = os.path.join("..", in_name)
+    elif form == "trailing-slash":
+        indir = indir + os.sep
     buf = io.StringIO()
     old_out = sys.stdout
     sys.stdout = buf
@@ -267,10 +311,10 @@ def _run(case, scratch):
     after = tree_state(root)
     # 1. inputs untouched
     for k, h in before.items():
-        if k.startswith("input" + os.sep) and after.get(k, "<gone>") != h:
+        if k.startswith(in_name + os.sep) and after.get(k, "<gone>") != h:
             fail("input-file-changed-or-removed", k)
-    new_in_input = sorted(k for k in after if k.startswith("input" + os.sep) and k not in before and
-                          not (inside and k.startswith(os.path.join("input", "out") + os.sep)))
+    new_in_input = sorted(k for k in after if k.startswith(in_name + os.sep) and k not in before and
+                          not (inside and k.startswith(os.path.join(in_name, "out") + os.sep)))
     if new_in_input:
         fail("something-written-into-the-input-directory", new_in_input[:3])
     marker = os.path.relpath(os.path.join(outx, "already_here.txt"), root)
@@ -278,20 +322,20 @@ def _run(case, scratch):
         fail("existing-file-in-the-output-directory-changed", None)
     # 2. everything created lies in a new directory at the right place
     created = sorted(k for k in after if k not in before)
-    where = "explicit_out" if case["out"] == "explicit" else ("work" if tool != "format_converter" else "")
+    where = "explicit_out" if case["out"] == "explicit" else (cwd_rel if tool != "format_converter" else "")
     new_dirs = [k for k in created if k.endswith("/")]
     for k in created:
         if k.endswith("/"):
             continue
         inside_new = any(k.startswith(d) for d in new_dirs)
         if tool == "format_converter" and inside:
-            ok = k.startswith(os.path.join("input", "out") + os.sep) and os.sep not in k[len(os.path.join("input", "out")) + 1:]
+            ok = k.startswith(os.path.join(in_name, "out") + os.sep) and os.sep not in k[len(os.path.join(in_name, "out")) + 1:]
         elif tool == "format_converter" and case["out"] == "explicit":
             ok = k.startswith("explicit_out" + os.sep)
         elif tool == "format_converter":
-            ok = inside_new and k.startswith("input_" + case["target"] + os.sep)
+            ok = inside_new and k.startswith(in_name + "_" + case["target"] + os.sep)
         else:
-            ok = inside_new and k.startswith(where + os.sep)
+            ok = inside_new and (k.startswith(where + os.sep) if where else not k.startswith(in_name + os.sep))
         if not ok:
             fail("file-created-outside-a-new-output-location", k)
             break
@@ -330,24 +374,31 @@ def _run(case, scratch):
                 continue
             # content of the output
             want = content(expected_doc(f["kind"], f["base"]))
-            path = os.path.join(root, mine[0])
-            try:
-                if tool == "odmlconvert":
-                    got_doc = XMLReader(show_warnings=False).from_file(path)
+            problems = []
+            for o in sorted(mine):          # (with look-alike base names more than one output can be the file's)
+                path = os.path.join(root, o)
+                try:
+                    if tool == "odmlconvert":
+                        got_doc = XMLReader(show_warnings=False).from_file(path)
+                    else:
+                        got = RDFReader().from_file(path, "xml")
+                        if len(got) != 1:
+                            problems.append(("output-does-not-hold-exactly-one-document", len(got)))
+                            continue
+                        got_doc = got[0]
+                    execs += 1
+                except Exception as exc:
+                    problems.append(("output-does-not-load", "%s: %s" % (type(exc).__name__, str(exc)[:160])))
+                    continue
+                got = content(got_doc)
+                compared += 1
+                if got != want:
+                    problems.append(("output-content-differs-from-its-source", snapshot.short(snapshot.diff(want, got))))
                 else:
-                    got = RDFReader().from_file(path, "xml")
-                    if len(got) != 1:
-                        fail("output-does-not-hold-exactly-one-document", len(got), f["kind"], f["ext"])
-                        continue
-                    got_doc = got[0]
-                execs += 1
-            except Exception as exc:
-                fail("output-does-not-load", "%s: %s" % (type(exc).__name__, str(exc)[:160]), f["kind"], f["ext"])
-                continue
-            got = content(got_doc)
-            compared += 1
-            if got != want:
-                fail("output-content-differs-from-its-source", snapshot.short(snapshot.diff(want, got)), f["kind"], f["ext"])
+                    problems = []
+                    break
+            if problems:
+                fail(problems[0][0], problems[0][1], f["kind"], f["ext"])
     else:
         for f in files:
             if not f["seen"]:
@@ -360,36 +411,45 @@ def _run(case, scratch):
         if all_right and raised is not None:
             fail("format-converter-raises-on-convertible-input", "%s: %s" % (type(raised).__name__, str(raised)[:200]),
                  right_kind)
-        if all_right and raised is None:
-            for f in files:
-                if not f["seen"]:
+
+        def load_output(path):
+            if target in ("v1_1", "odml"):
+                return XMLReader(show_warnings=False).from_file(path)
+            # "parses as RDF": plain rdflib (a Dataset, so that trig works too), then the triples are
+            # handed to the library's importer
+            fmt = {"ttl": "turtle", "ntriples": "nt", "nt11": "nt", "pretty-xml": "xml"}.get(target, target)
+            ds = rdflib.Dataset()
+            ds.parse(path, format=fmt)
+            g = rdflib.Graph()
+            for s_, p_, o_, _c in ds.quads((None, None, None, None)):
+                g.add((s_, p_, o_))
+            rd = RDFReader()
+            rd.graph = g
+            got = rd.to_odml()
+            if len(got) != 1:
+                raise LookupError(len(got))
+            return got[0]
+
+        for f in files:
+            if not f["seen"]:
+                continue
+            mine = [o for o in outputs if os.path.basename(o).startswith(f["base"] + ".")]
+            if all_right and raised is None and len(mine) != 1:
+                fail("convertible-file-has-no-output", mine, f["kind"], f["ext"])
+                continue
+            # every output that exists - also that of a file the target format was not made for, and in a run that
+            # stopped later - has to load and to carry the content of its source
+            for o in mine:
+                if f["kind"] in BAD:
+                    fail("unconvertible-file-has-an-output", o, f["kind"], f["ext"])
                     continue
-                mine = [o for o in outputs if os.path.basename(o).startswith(f["base"] + ".")]
-                if len(mine) != 1:
-                    fail("convertible-file-has-no-output", mine, f["kind"], f["ext"])
-                    continue
-                path = os.path.join(root, mine[0])
                 want = content(expected_doc(f["kind"], f["base"]))
                 try:
-                    if target in ("v1_1", "odml"):
-                        got_doc = XMLReader(show_warnings=False).from_file(path)
-                    else:
-                        # "parses as RDF": plain rdflib (a Dataset, so that trig works too), then the triples are
-                        # handed to the library's importer
-                        fmt = {"ttl": "turtle", "ntriples": "nt", "nt11": "nt", "pretty-xml": "xml"}.get(target, target)
-                        ds = rdflib.Dataset()
-                        ds.parse(path, format=fmt)
-                        g = rdflib.Graph()
-                        for s_, p_, o_, _c in ds.quads((None, None, None, None)):
-                            g.add((s_, p_, o_))
-                        rd = RDFReader()
-                        rd.graph = g
-                        got = rd.to_odml()
-                        if len(got) != 1:
-                            fail("output-does-not-hold-exactly-one-document", len(got), f["kind"], f["ext"])
-                            continue
-                        got_doc = got[0]
+                    got_doc = load_output(os.path.join(root, o))
                     execs += 1
+                except LookupError as exc:
+                    fail("output-does-not-hold-exactly-one-document", str(exc), f["kind"], f["ext"])
+                    continue
                 except Exception as exc:
                     fail("output-does-not-load", "%s: %s" % (type(exc).__name__, str(exc)[:160]), f["kind"], f["ext"])
                     continue
